@@ -747,6 +747,7 @@ struct Op { std::string op; long a = 0, b = 0, p = 0; };
 // returns false if the operation is out of contract in the current state (nothing is executed or recorded)
 static bool inContract(Inst& in, const Op& o) {
 	const std::string& op = o.op;
+	if (op == "move" && VH_CTX == 2) return false;
 	if (op == "ctor" || op == "copy" || op == "move") return in.m == nullptr;
 	if (!in.m) return false;
 	if (op == "dtor") {
@@ -798,9 +799,11 @@ static bool execOp(int idx, const Op& o) {
 			in.ctx = src->ctx; in.loggerOn = src->loggerOn;
 			std::memset(in.storage, 0x5C, sizeof in.storage);
 			g_curFsm = in.storage;
+#if VH_CTX != 2		// (the library's move constructor does not compile for reference contexts)
 			if (op == "move")	// the moved-from machine stays a valid, equivalent machine (it is destroyed like any other later)
 				in.m = new (static_cast<void*>(in.storage)) FSM::Instance{static_cast<FSM::Instance&&>(*src->m)};
 			else
+#endif
 				in.m = new (static_cast<void*>(in.storage)) FSM::Instance{*src->m};
 #if VH_LOG
 			in.m->attachLogger(in.loggerOn ? &in.logger : nullptr);
